@@ -235,20 +235,48 @@ SHARED_CALLS = {'to_mask', 'get_mask', 'get_data', 'get_component', 'compute', '
 SHARED_ATTRS = {'data', '_data', 'mask', '_mask', 'codes', 'labels', '_categorical_data', 'categories'}
 
 
+def function_views(ix):
+    """raw FunctionDef -> the tree the rules should read: the index's view of it (new private helpers inlined, temporaries
+    folded), None for a new helper that was inlined everywhere it is called, the node itself for nested functions."""
+    byraw = ix.__dict__.get('_views_byraw')
+    if byraw is None:
+        byraw = {}
+        for f in ix.functions.values():
+            byraw[id(f.raw_node)] = f
+        for c in ix.classes.values():
+            for m in c.members.values():
+                for f in (m.func, m.fget, m.fset, m.fdel):
+                    if f is not None:
+                        byraw[id(f.raw_node)] = f
+        ix.__dict__['_views_byraw'] = byraw
+
+    def view(raw):
+        f = byraw.get(id(raw))
+        if f is None:
+            return raw
+        if ix.helper_status(f) == 'inlined':
+            return None
+        return f.node
+    return view
+
+
 def check_inplace_fresh(ctx, rule, ix, modules, extra_funcs=(), exceptions=None):
     """In-place writes to array variables: the target must not be (on any reaching definition)
     the result of a mask/data accessor, which may be a memoised mask or component storage."""
     exceptions = exceptions or INPLACE_EXCEPTIONS
     used_exc = set()
     funcs = []
+    views = function_views(ix)
     for mname in modules:
         m = ix.module(mname)
         for node in ast.walk(m.tree):
             if isinstance(node, (ast.FunctionDef, ast.AsyncFunctionDef)):
-                funcs.append((m, node))
+                v = views(node)
+                if v is not None:
+                    funcs.append((m, v, node))
     for q in extra_funcs:
         f = ix.func(q)
-        funcs.append((f.module, f.node))
+        funcs.append((f.module, f.node, f.raw_node))
     owner = {}
     for mname in modules:
         m = ix.module(mname)
@@ -258,8 +286,8 @@ def check_inplace_fresh(ctx, rule, ix, modules, extra_funcs=(), exceptions=None)
                     if isinstance(st, ast.FunctionDef):
                         owner[id(st)] = cn.name
     nsites = 0
-    for m, node in funcs:
-        cname = owner.get(id(node))
+    for m, node, raw_ in funcs:
+        cname = owner.get(id(raw_))
         construct = '%s:%s%s' % (m.name, (cname + '.') if cname else '', node.name)
         params = [a.arg for a in node.args.posonlyargs + node.args.args + node.args.kwonlyargs]
         data_params = {p for p in params if p in ('data', 'other', 'target_data', 'reference_data')}
